@@ -173,7 +173,7 @@ def run_tlc(ctx, module, cfg, extra_files=(), workers=None, timeout=600, simulat
         cmd += ["-simulate", simulate]
     cmd.append(module + ".tla")
     env = dict(os.environ)
-    jopts = []
+    jopts = ["-Djava.io.tmpdir=" + d]   # (TLC makes a temporary directory of its own per run: inside the scratch directory, which is removed)
     if depth_first:
         jopts.append("-Dtlc2.tool.queue.IStateQueue=StateDeque")
     if xss:
